@@ -233,6 +233,33 @@ def h4(prog, rep):
     rep.check(ok, "H4-sift", "swap exchanges slots i and j", sw.loc, "", function="swap", construct="swap")
 
 
+def h5(prog, rep):
+    """ptrheap_delete: the element moved into the hole comes from the end of the array, i.e. possibly from another
+    subtree, so it may be smaller than its new parent as well as larger than its new children: the deletion must be
+    able to sift in both directions."""
+    u = prog.unit(PH)
+    de = u.func("ptrheap_delete")
+    up = list(de.calls("heapifyup"))
+    dn = list(de.calls("heapify"))
+    sw = list(de.calls("swap"))
+    rc = ("v", de.params[1]["name"], de.params[1]["id"])
+    ok = bool(dn) and (bool(up) or bool(sw))
+    detail = "sift-down calls %d, sift-up calls %d" % (len(dn), len(up) + len(sw))
+    if ok:
+        # the upward move is taken exactly when the element is smaller than its parent (and has one)
+        t = (up + sw)[0]
+        at = [(op, L, R) for cond, truth in de.edge_conds(t) for op, L, R, _, _ in cond_atoms(cond, truth)]
+        par = parent_of(rc)
+        lt = any(op == "<" and R == ("c", 0) and L[0] == "call" and slot(L[3]) is not None and slot(L[3])[1] == rc and slot(L[4]) is not None and slot(L[4])[1] == par for op, L, R in at)
+        nz = any(op == ">" and L == rc and R == ("c", 0) for op, L, R in at) or any(op == "!=" and L == rc and R == ("c", 0) for op, L, R in at)
+        ok = lt and nz
+        # sift-down covers the live elements (all nelems before the count is decremented)
+        ok = ok and all(norm(d.arg(1)) == rc and norm(d.arg(2))[0] == "." and norm(d.arg(2))[2] == "nelems" for d in dn)
+        detail += "; up-guard compar(elem, parent) < 0: %s, rc > 0: %s" % (lt, nz)
+    rep.check(ok, "H4-sift", "ptrheap_delete re-establishes order in both directions (up when smaller than the parent, else down)", de.loc, detail,
+              function=de.name, construct="delete-bidirectional")
+
+
 def h2_h3(prog, rep):
     u = prog.unit(TQ)
     ini = u.func("timerqueue_init")
@@ -310,11 +337,15 @@ def run(tier):
         "loops use the comparator with the documented sign (H4). Comparator totality is decided in C04. Not decided: that sifting "
         "restores heap order for every history (an inductive invariant over the array).",
         trusted=["elasticarray wrappers (C12, C14)"])
-    prog = ir.Program([PH, TQ], cdb.HOST)
+    prog = ir.Program([PH, TQ, "datastruct/elasticarray.c"], cdb.HOST)
     rep.add_stats(prog)
     h1(prog, rep)
     h4(prog, rep)
+    h5(prog, rep)
     h2_h3(prog, rep)
+    # the heap's storage: a shrink that is silently skipped leaves deleted elements in the array (rule shared with C12)
+    from . import c12
+    c12.resize_contract(prog, rep)
     rep.require_min("H1-notify", 8)
     rep.require_min("H1-forward", 8)
     rep.require_min("H2-handle", 4)
